@@ -148,16 +148,44 @@ fn eval_degenerate(kind: usize) -> (Vec<(String, String)>, String) {
 }
 
 fn eval_forward_transformed(ri: usize, ti: usize, mi: usize) -> (Vec<(String, String)>, String) {
+    let (mut fails, sig) = eval_forward_transformed_prev(ri, ti, mi, 0);
+    for pv in 1..4 {
+        fails.extend(eval_forward_transformed_prev(ri, ti, mi, pv).0);
+    }
+    (fails, sig)
+}
+
+/// prev_variant: 0 = qs with J4 nudged, 1 = CONSTRAINT_CENTERED on an unconstrained robot (zeros),
+/// 2 = CONSTRAINT_CENTERED on a constrained robot (its centres), 3 = a vector far from qs
+fn eval_forward_transformed_prev(ri: usize, ti: usize, mi: usize, prev_variant: usize) -> (Vec<(String, String)>, String) {
     let mut fails = Vec::new();
     let robots = robot_axis(0, &[6]);
     let p = robots[ri % robots.len()];
-    let thetas = [[0.4, -0.9, -1.9, 0.3, 0.6, 0.2], [-2.4, 0.5, 0.8, -1.3, -1.2, 2.5], [0.7, 0.2, 0.1, 1.1, 0.4, -0.4]];
+    let thetas = [[0.4, -0.9, -1.9, 0.3, 0.6, 0.2], [-2.4, 0.5, 0.8, -1.3, -1.2, 2.5], [0.7, 0.2, 0.1, 2.6, 0.4, -2.4]];
     let q = user_joints(&p, &thetas[ti % 3]);
     let motions = [Iso::trans(0.01, 0.0, 0.0), Iso::new(rotz(0.05), [0.02, -0.01, 0.0]), Iso::new(rot_axis([1.0, 2.0, -1.0], 0.03), [0.0, 0.0, 0.015])];
     let m = motions[mi % 3];
-    let framed = Frame { robot: Arc::new(OPWKinematics::new(p)), frame: to_na(&m) };
+    let limits = rs_opw_kinematics::constraints::Constraints::new([-1.0, -3.0, -3.0, -0.5, -3.0, -5.5], [4.5, 3.0, 3.0, 5.5, 3.0, 0.5], 0.0);
+    let robot = if prev_variant == 2 { OPWKinematics::new_with_constraints(p, limits) } else { OPWKinematics::new(p) };
+    let framed = Frame { robot: Arc::new(robot), frame: to_na(&m) };
     let mut prev = q;
     prev[3] += 0.1;
+    let mut reference = prev;
+    match prev_variant {
+        1 => {
+            prev = rs_opw_kinematics::kinematic_traits::CONSTRAINT_CENTERED;
+            reference = [0.0; 6];
+        }
+        2 => {
+            prev = rs_opw_kinematics::kinematic_traits::CONSTRAINT_CENTERED;
+            reference = limits.centers;
+        }
+        3 => {
+            prev = [q[0] + 0.3, q[1], q[2], q[3] - 2.9, -q[4], q[5] + 2.7];
+            reference = prev;
+        }
+        _ => {}
+    }
     let (sols, pose) = framed.forward_transformed(&q, &prev);
     let want = m.mul(&fkref::fk(&p, &q));
     let (dp, da) = pose_dist(&from_na(&pose), &want);
@@ -171,9 +199,9 @@ fn eval_forward_transformed(ri: usize, ti: usize, mi: usize) -> (Vec<(String, St
             fails.push(("C17/forward_transformed/answer-unsound".to_string(), format!("answer {s:?} misses the frame-moved pose by {dp:e} m, {da:e} rad")));
             break;
         }
-        let cost: f64 = (0..6).map(|i| (s[i] - prev[i]).abs()).sum();
+        let cost: f64 = (0..6).map(|i| (s[i] - reference[i]).abs()).sum();
         if cost < last - 1e-12 * (1.0 + last.abs()) {
-            fails.push(("C17/forward_transformed/order".to_string(), format!("answers not ordered by closeness to previous ({cost} after {last})")));
+            fails.push((format!("C17/forward_transformed/order/prev-variant{prev_variant}"), format!("answers not ordered by closeness to the given previous / its documented stand-in ({cost} after {last})")));
             break;
         }
         last = cost;
